@@ -24,6 +24,11 @@ pub fn classify_component(c: &str) -> Class<u32> {
 }
 /// whole path text -> full indices
 pub fn classify_path(s: &str) -> Class<Vec<u32>> {
+    let o = classify_path_raw(s);
+    crate::trace::rec("classify_path", 10000, || (crate::trace::q(s), match &o { Class::Reject => "\"reject\"".into(), Class::Accept(v) | Class::Unc(v) => format!("[\"{}\",[{}]]", o.name(), v.iter().map(|x| x.to_string()).collect::<Vec<_>>().join(",")) }));
+    o
+}
+fn classify_path_raw(s: &str) -> Class<Vec<u32>> {
     let (rest, root_exotic) = if let Some(r) = s.strip_prefix("m/") { (r, false) }
         else if s == "m" { return Class::Unc(vec![]); }
         else if let Some(r) = s.strip_prefix("M/").or_else(|| s.strip_prefix(" m/")) { (r, true) }
@@ -42,6 +47,11 @@ pub fn path_text(p: &[u32]) -> String {
 
 /// textual signature -> (r, s, y_parity)
 pub fn classify_signature(t: &str) -> Class<(U256, U256, bool)> {
+    let o = classify_signature_raw(t);
+    crate::trace::rec("classify_signature", 4000, || (crate::trace::q(t), match &o { Class::Reject => "\"reject\"".into(), Class::Accept(v) | Class::Unc(v) => format!("[\"{}\",\"{}\",\"{}\",{}]", o.name(), v.0.to_hex64(), v.1.to_hex64(), v.2) }));
+    o
+}
+fn classify_signature_raw(t: &str) -> Class<(U256, U256, bool)> {
     let body = t.strip_prefix("0x").unwrap_or(t);
     if body.len() != 130 || !body.bytes().all(|b| b.is_ascii_hexdigit()) { return Class::Reject; }
     let upper = body.bytes().any(|b| b.is_ascii_uppercase());
@@ -55,6 +65,11 @@ pub fn classify_signature(t: &str) -> Class<(U256, U256, bool)> {
 fn is_ascii_layout_ws(c: char) -> bool { matches!(c, ' ' | '\t' | '\n' | '\r') }
 /// `hex decode` input -> bytes (whitespace anywhere, either digit case, optional 0x)
 pub fn classify_hex_text(t: &str) -> Class<Vec<u8>> {
+    let o = classify_hex_text_raw(t);
+    if t.len() <= 400 { crate::trace::rec("classify_hex_text", 2500, || (crate::trace::q(t), match &o { Class::Reject => "\"reject\"".into(), Class::Accept(v) | Class::Unc(v) => format!("[\"{}\",{}]", o.name(), crate::trace::h(v)) })); }
+    o
+}
+fn classify_hex_text_raw(t: &str) -> Class<Vec<u8>> {
     let mut unc = t.chars().any(|c| c.is_whitespace() && !is_ascii_layout_ws(c));
     let stripped: String = t.chars().filter(|c| !c.is_whitespace()).collect();
     let body = if let Some(b) = stripped.strip_prefix("0x") { b } else if let Some(b) = stripped.strip_prefix("0X") { unc = true; b } else { &stripped };
